@@ -273,10 +273,10 @@ class ExecBase:
             mod = source.load_module(s.func_stack[-1].module)
             if name in mod.funcs:
                 return SV(fresh("fn_" + name), fn=mod.funcs[name], name=name)
+        if name in BUILTIN_NAMES:
+            return SV(fresh("bi_" + name), builtin=name, **({"cls": name} if name in CLASS_PARENT else {}))
         if name in CLASS_PARENT or name in s.unit.known_classes:
             return SV(fresh("cls_" + name), cls=name)
-        if name in BUILTIN_NAMES:
-            return SV(fresh("bi_" + name), builtin=name)
         raise Unsupported(f"unbound name {name} @ line {getattr(node, 'lineno', '?')}")
 
     def e_JoinedStr(s, n, p):
